@@ -895,6 +895,11 @@ func c03Exec(t *testing.T, sc *gen.Scenario, trace bool) *harness.Outcome {
 						}
 					}
 				}
+				if kind == "userset" && a1 && !a2 && tag == "" && (ReachesKind(sc.Model, rm.ObjType(rq.Obj), rq.Rel, rm.Computed) || ReachesKind(sc.Model, rm.ObjType(rq.Obj), rq.Rel, rm.TTU)) {
+					// the subject's userset is matched by a stored tuple (or by itself) behind a computed
+					// userset or a tuple-to-userset: the third shape of F20
+					tag = " userset_subject_behind_computed_or_ttu"
+				}
 				if !a1 && a2 && ReachesKind(sc.Model, rm.ObjType(rq.Obj), rq.Rel, rm.Difference) {
 					tag += " reaches_exclusion"
 				}
